@@ -366,6 +366,15 @@ class Interp:
                 return r.concrete() if r.concrete() is not None else r
             raise AnalysisError(f"minieval: `{norm(node)}` computes with the unknown value")
         try:
+            if isinstance(op, ast.Add) and (isinstance(a, SymStr) or isinstance(b, SymStr)):
+                if _as_chars(a) is None or _as_chars(b) is None:
+                    raise Raised("TypeError", node)
+                return _mk_text(_as_chars(a) + _as_chars(b))
+            if isinstance(op, ast.Mult) and (isinstance(a, SymStr) or isinstance(b, SymStr)):
+                t_, k_ = (a, b) if isinstance(a, SymStr) else (b, a)
+                if not isinstance(k_, int) or isinstance(k_, bool):
+                    raise Raised("TypeError", node)
+                return _mk_text(list(t_) * max(k_, 0))
             if isinstance(op, ast.Add):
                 return a + b
             if isinstance(op, ast.Sub):
@@ -467,6 +476,8 @@ class Interp:
                 hi = self.ev(e.slice.upper, env) if e.slice.upper is not None else None
                 if isinstance(b, _View):
                     b = b.items
+                if isinstance(b, SymStr):
+                    return _mk_text(list(b)[lo:hi])
                 if isinstance(b, (list, tuple, str, bytes)):
                     return b[lo:hi]
                 raise AnalysisError(f"minieval: slice of {type(b).__name__}")
@@ -694,8 +705,19 @@ class Interp:
                     return obj.startswith(args[0])
                 if m == "endswith":
                     return obj.endswith(args[0])
-                if m in ("isupper", "islower"):
-                    return getattr(obj, m)()
+                if m in ("isupper", "islower", "isdigit", "isalpha", "isalnum", "isspace", "isprintable", "isascii", "upper", "lower",
+                         "strip", "lstrip", "rstrip", "encode", "title", "capitalize") and not kwargs \
+                        and all(isinstance(a_, str) for a_ in args):
+                    try:
+                        return getattr(obj, m)(*args)
+                    except (UnicodeError, LookupError):
+                        raise Raised("UnicodeError", e)
+            if isinstance(obj, (bytes, bytearray)) and not kwargs and m in ("decode", "hex", "upper", "lower", "strip", "isalnum", "isdigit") \
+                    and all(isinstance(a_, (str, bytes)) for a_ in args):
+                try:
+                    return getattr(obj, m)(*args)
+                except (UnicodeError, LookupError):
+                    raise Raised("UnicodeError", e)
             if isinstance(obj, int) and not isinstance(obj, bool) and m == "bit_length" and not args:
                 return obj.bit_length()
             if isinstance(obj, (TypeRef, NewType)) and callable(obj.attrs.get(m)):
@@ -743,6 +765,19 @@ class Interp:
             return list(zip(*[self.iterate(a, e) for a in args]))
         if name == "range" and args and all(isinstance(a, int) for a in args):
             return list(range(*args))
+        if name in ("ord", "chr", "bytes", "bytearray", "min", "max", "sum", "abs", "sorted", "set", "frozenset", "reversed", "enumerate") \
+                and name not in self.globals and name not in env and not kwargs:
+            conc = lambda v: isinstance(v, (int, str, bytes, bytearray, bool)) or (  # noqa: E731
+                isinstance(v, (list, tuple, set, frozenset)) and not isinstance(v, SymStr) and all(conc(x) for x in v))
+            if all(conc(a_) for a_ in args):
+                import builtins as _b
+                try:
+                    r = getattr(_b, name)(*args)
+                except TypeError:
+                    raise Raised("TypeError", e)
+                except ValueError:
+                    raise Raised("ValueError", e)
+                return list(r) if name in ("reversed", "enumerate") else r
         if name == "format" and len(args) == 2 and isinstance(args[0], SymVec) and "format" not in self.globals:
             raise AnalysisError("minieval: format() of the unknown value")
         if name == "iter" and len(args) == 1:
